@@ -186,6 +186,42 @@ theorem released_blob_reclaimed (ops : List Op) (bid : Nat) (b : Blob)
   have hcl : b.closed = true := by rw [hc, hcalls]; rfl
   exact ⟨hcl, by rw [inv.b.flags _ b hb, hcl]⟩
 
+/-- A closed layer released its blob reference WITH eviction (`l.blob.done(true)`): its blob is no
+longer in the blob cache. -/
+theorem closed_layer_blob_evicted (ops : List Op) (lid : Nat) (l : Layer)
+    (hl : (run ops).layers[lid]? = some l) (hc : l.closed = true) :
+    ∃ bid b, blobOfTok (run ops) l.blobTok = some bid ∧ (run ops).blobs[bid]? = some b ∧
+      (run ops).bc.m b.name ≠ some bid := by
+  have inv := Inv.run ops
+  obtain ⟨tk, htk, _⟩ := inv.x.btok _ l hl
+  obtain ⟨r, hr, hf⟩ := inv.f lid l tk hl hc htk
+  obtain ⟨b, hb, hv, hn, _⟩ := inv.b.link.ok _ r hr
+  refine ⟨tk.rc, b, by simp [blobOfTok, htk, valOf_of hr, hv], hb, ?_⟩
+  intro hm
+  have hmem : (run ops).bc.member tk.rc r := by unfold TTL.member; rw [← hn]; exact hm
+  have := (inv.b.reach.inv.member_iff hr).mp hmem
+  rw [hf] at this; cases this
+
+/-- Both cache handles: when a layer is reclaimed (every holder released it and it is out of the
+layer cache) and no other open layer instance uses its blob, then — besides the layer, its reader,
+metadata and fs cache (`released_layer_reclaimed`) — the blob and its http cache directory are closed
+too; no timer of the blob cache has to fire for that. -/
+theorem released_layer_reclaims_blob (ops : List Op) (lid : Nat) (l : Layer)
+    (hl : (run ops).layers[lid]? = some l)
+    (hheld : held (run ops).lc.core.toks lid = 0)
+    (hev : (run ops).lc.m l.name ≠ some lid)
+    (hothers : ∀ (j : Nat) (lj : Layer), (run ops).layers[j]? = some lj → j ≠ lid →
+      blobOfTok (run ops) lj.blobTok = blobOfTok (run ops) l.blobTok → lj.closed = true) :
+    ∃ bid b, blobOfTok (run ops) l.blobTok = some bid ∧ (run ops).blobs[bid]? = some b ∧
+      b.closed = true ∧ b.cacheClosed = true := by
+  have hc := (released_layer_reclaimed ops lid l hl hheld hev).1
+  obtain ⟨bid, b, hbt, hb, hm⟩ := closed_layer_blob_evicted ops lid l hl hc
+  refine ⟨bid, b, hbt, hb, released_blob_reclaimed ops bid b hb ?_ hm⟩
+  intro i li hli hbi
+  by_cases e : i = lid
+  · subst e; rw [hl] at hli; cases hli; exact hc
+  · exact hothers i li hli e (by rw [hbi, hbt])
+
 /-- The directories on disk are exactly the cache handles that are still open: one `fscache`
 directory per open layer, one `httpcache` directory per open blob — nothing else, after any history
 (in particular after failed resolves, and none at all once everything is reclaimed). -/
@@ -342,6 +378,13 @@ example : readRes (resolve (run [.resolve 0 allOk]) 0 ⟨false, true, true, true
 -- hypotheses of `reresolve_fresh`: layer 0 reclaimed, then the name resolves to layer 1
 example : (run [.resolve 0 allOk, .done 0 true]).layers[0]? = some ⟨0, 0, true, true, true, true, 1⟩ := by decide
 example : (resolve (run [.resolve 0 allOk, .done 0 true]) 0 allOk).2 = .fresh 1 1 := by decide
+-- hypotheses of `released_layer_reclaims_blob`: an older instance shares the blob; when both are reclaimed the blob goes
+example : ((run [.resolve 0 allOk, .resolve 0 ⟨false, true, true, true⟩, .done 0 false]).layers.map (·.closed),
+           (run [.resolve 0 allOk, .resolve 0 ⟨false, true, true, true⟩, .done 0 false]).blobs.map (·.closed))
+    = ([true, false], [false]) := by decide
+example : ((run [.resolve 0 allOk, .resolve 0 ⟨false, true, true, true⟩, .done 0 false, .done 2 true]).layers.map (·.closed),
+           (run [.resolve 0 allOk, .resolve 0 ⟨false, true, true, true⟩, .done 0 false, .done 2 true]).blobs.map (·.closed))
+    = ([true, true], [true]) := by decide
 -- failing resolves of every kind exist (hypothesis of `failed_resolve_leaks_nothing`)
 example : (resolve (run []) 0 ⟨true, true, false, true⟩).2 = .errBlob := by decide
 example : (resolve (run [.resolve 0 allOk, .expireL 0]) 0 ⟨true, true, true, false⟩).2 = .errMeta := by decide
@@ -349,7 +392,4 @@ example : (resolve (run [.resolve 0 allOk]) 0 ⟨false, false, false, true⟩).2
 -- the failed metadata read evicted the blob shared with the old holder; the holder still reads
 example : readRes (resolve (run [.resolve 0 allOk, .expireL 0]) 0 ⟨true, true, true, false⟩).1 0 = .ok := by decide
 example : (resolve (run [.resolve 0 allOk, .expireL 0]) 0 ⟨true, true, true, false⟩).1.bc.m 0 = none := by decide
--- the model can express a leak: a closed layer whose blob reference is not released is just a state
-example : ({ layers := [⟨0, 0, true, true, true, true, 0⟩] } : State).layers.length = 1 := rfl
-
 end SV.Props.C12
